@@ -33,7 +33,9 @@ def _outcome(f):
         raise
     except Exception as e:
         return "raised:" + type(e).__name__
-    return "returned:" + srepr(r, 120)
+    if isinstance(r, (int, bool, bytes, bytearray, str, tuple, list, type(None))):
+        return "returned:" + srepr(r, 120)
+    return "returned:object-of-type-" + type(r).__name__        # no addresses in outcome classes
 
 
 _FIRST = {}
